@@ -570,6 +570,7 @@ func traceHash(tr []simrt.Seg) (uint64, int) {
 }
 
 func (ck c04) RunCase(c *Ctx, idx int) *CaseOut {
+	wrapIncludes = false
 	r := NewRng(c.Seed, strSeed("C04"), uint64(idx))
 	cs := genC04(r, c.Tier)
 	out := &CaseOut{}
